@@ -74,7 +74,9 @@ def run_cfg(job):
         # database, no APU name at all, a name the database does not know; every option combination meets one of the three
         apuvar = ('running', 'absent', 'idle')[sum(map(ord, json.dumps(cfgd, sort_keys=True))) % 3]
         pm = model(None, apuvar)
-        traj = synthetic_traj([0, 2000, 0, 5000, 1000, 2000], 2, 2) if which == 'synthetic' else real_traj()
+        # (InventoryGen.tla AltProfiles: the synthetic flight on one of the three altitude profiles, by configuration)
+        prof = ('high', 'low', 'ref_level')[sum(map(ord, json.dumps(cfgd, sort_keys=True))) // 3 % 3]
+        traj = synthetic_traj([0, 2000, 0, 5000, 1000, 2000], 2, 2, profile=prof) if which == 'synthetic' else real_traj()
         allowed = [(o['kind'], o['method']) for o in case['outcomes']]
         short = {k: cfgd[k] for k in FIELDS}
         try:
